@@ -159,6 +159,14 @@ def check_scenario(cfg: Dict, model_out: Optional[Tuple[str, str]], twice: bool 
         fails.append({"kind": "initial-state", "item": b.split()[0], "detail": b})
     for b in R.options_oracle(game, cfg):
         fails.append({"kind": "game-options", "item": b.split()[1], "detail": b})
+    try:
+        for b in R.agents_oracle(game, cfg):
+            fails.append({"kind": "agents-declared-vs-built", "item": b.split()[1], "detail": b})
+        if ctx is not None and cfg.get("agents"):
+            ctx.count("agents-oracle:applied")
+    except Exception as e:  # an agent kind the oracle does not know how to read is counted, not reported
+        if ctx is not None:
+            ctx.count("agents-oracle:not-applicable:" + type(e).__name__)
     if twice:
         if ctx is not None:
             for mp in mutation_paths(snap, work):
